@@ -1004,6 +1004,21 @@ func init() {
 	E("os.Getenv", func(fr *frame, args []value) value {
 		return fr.i.path.env.envVars[concStr(args[0], "Getenv")]
 	})
+	E("os.Getwd", func(fr *frame, args []value) value { return tuple{"/hub", iface{}} })
+	// sync.Pool: no pooling — Get builds a fresh object with New, Put drops it.
+	E("(*sync.Pool).Get", func(fr *frame, args []value) value {
+		pp := recvPtr(args[0], "sync.Pool")
+		pt := lookupNamed(fr.i.prog, "sync", "Pool")
+		newFn := (*pp).(structure)[fieldIndex(pt, "New")]
+		if newFn == nil {
+			return iface{}
+		}
+		if c, ok := newFn.(*closure); ok && c == nil {
+			return iface{}
+		}
+		return call(fr.i, fr, token.NoPos, newFn, nil)
+	})
+	E("(*sync.Pool).Put", func(fr *frame, args []value) value { return nil })
 	E("path/filepath.Join", func(fr *frame, args []value) value {
 		var parts []string
 		for _, a := range args[0].([]value) {
